@@ -295,7 +295,8 @@ class Verifier:
                 # observable post-state is self and p[0] (with everything reachable from it)
                 g2 = state_eq(I, [_result_view(a) for a in args], [_result_view(a) for a in argsB])
             else:
-                g2 = state_eq(I, list(args), argsB)
+                # arguments passed by keyword are arguments too: their post-state is compared as well
+                g2 = state_eq(I, list(args) + [kwargs[k] for k in sorted(kwargs)], argsB + [kwB[k] for k in sorted(kwargs)])
             goals += [g1, g2]
             if ghost_fn or I.ghost:
                 g4 = state_eq(I, ghost_fn, I.ghost)
